@@ -17,7 +17,10 @@ inductive Atom
   | toGeFrom    -- sizeof(T_To) >= sizeof(T_From)
   | toLeFrom    -- sizeof(T_To) <= sizeof(T_From)
   | toLtFrom    -- sizeof(T_To) <  sizeof(T_From)
+  | toGtFrom    -- sizeof(T_To) >  sizeof(T_From)
+  | toEqFrom    -- sizeof(T_To) == sizeof(T_From)
   | toUns | frUns | toSig | frSig
+  | not (a : Atom)   -- !(...)
 deriving DecidableEq, Repr
 
 /-- the dynamic checks -/
@@ -40,7 +43,10 @@ def Atom.holds (to fr : IntTy) : Atom → Bool
   | .toGeFrom => decide (to.bytes ≥ fr.bytes)
   | .toLeFrom => decide (to.bytes ≤ fr.bytes)
   | .toLtFrom => decide (to.bytes < fr.bytes)
+  | .toGtFrom => decide (to.bytes > fr.bytes)
+  | .toEqFrom => decide (to.bytes = fr.bytes)
   | .toUns => !to.signed | .frUns => !fr.signed | .toSig => to.signed | .frSig => fr.signed
+  | .not a => !(a.holds to fr)
 
 def Chk.holds (to fr : IntTy) (v : Int) : Chk → Bool
   | .leToMax => decide (v ≤ to.max)
